@@ -363,3 +363,22 @@ Example C06_pke_other_recipient_is_unprotected_by_these_theorems :
   x_pke_unseal toy (str "k4") false (xof4 toy) key32' (z 32 ++ epk5 ++ key32) = Ok key32 /\   (* other epk *)
   v3_pke_unseal_gen toy 128 InvalidKey (z 47 ++ [x07]) blob_p3 = Ok key32.
 Proof. msplit; vm_compute; reflexivity. Qed.
+
+(* ---- text level ---- *)
+From PV Require Import Base64 Text TextProofs.
+Example C06_text_change_changes_blob_nonvacuous :
+  forall d1 d2,
+    parse_paserk (str "k4") (str ".local-wrap.pie.") (str "k4.local-wrap.pie.AAAA") = Ok d1 ->
+    parse_paserk (str "k4") (str ".local-wrap.pie.") (str "k4.local-wrap.pie.AAAAAAAA") = Ok d2 -> d1 <> d2.
+Proof.
+  intros d1 d2 H1 H2. apply (C06_text_change_changes_blob _ _ _ _ _ _ H1 H2). vm_compute. discriminate.
+Qed.
+Example C06_text_change_hyps_hold :
+  parse_paserk (str "k4") (str ".local-wrap.pie.") (str "k4.local-wrap.pie.AAAA") = Ok (repeat x00 3) /\
+  parse_paserk (str "k4") (str ".local-wrap.pie.") (str "k4.local-wrap.pie.AAAAAAAA") = Ok (repeat x00 6) /\
+  (* one dangling character, a trailing dot, padding: not accepted at all *)
+  parse_paserk (str "k4") (str ".local-wrap.pie.") (str "k4.local-wrap.pie.AAAAA") = Err Base64DecodeError /\
+  parse_paserk (str "k4") (str ".local-wrap.pie.") (str "k4.local-wrap.pie.AAAA.") = Err Base64DecodeError /\
+  parse_paserk (str "k4") (str ".local-wrap.pie.") (str "k4.local-wrap.pie.AAA=") = Err Base64DecodeError.
+Proof. vm_compute. repeat split. Qed.
+
